@@ -265,6 +265,7 @@ def rule_scratch(c, prog, R="C05.scratch"):
 
 
 def run(c, prog):
+    common.rule_base64_whole(c, prog, "C05.b64")
     rule_scratch(c, prog)
     rule_tags(c, prog)
     rule_doc(c, prog)
